@@ -96,6 +96,10 @@ def veq(a, b):
             return False
         return sym.And(*[c for _, c in vec_eq_clauses(a, b)]) if (a.c or b.c) else True
     if isinstance(a, np.ndarray) or isinstance(b, np.ndarray):
+        if isinstance(b, (int, float)):
+            b = np.zeros(np.shape(a)) + b
+        if isinstance(a, (int, float)):
+            a = np.zeros(np.shape(b)) + a
         a, b = np.asarray(a, dtype=complex if np.iscomplexobj(a) or np.iscomplexobj(b) else float), np.asarray(b)
         scale = max(1.0, float(np.max(np.abs(a))) if a.size else 1.0, float(np.max(np.abs(b))) if b.size else 1.0)
         return a.shape == b.shape and bool(np.all(np.abs(a - b) <= 1e-9 * scale))
